@@ -536,9 +536,17 @@ class MessageManager(interfaces.TokenInterface, interfaces.MessageManager):
             )
             self._add_exchange(message, messageerror_monitor)
 
-        self._store_response_for_duplicates(message)
+        try:
+            self._send_via_transport(message)
+        except Exception:
+            # Nothing went out (eg. because the message can not be
+            # serialized): There is nothing to be retransmitted or repeated,
+            # and nothing a later message to the same remote should wait for.
+            if message.mtype is CON:
+                self._remove_exchange(message)
+            raise
 
-        self._send_via_transport(message)
+        self._store_response_for_duplicates(message)
 
     def _send_via_transport(self, message):
         """Put the message on the wire"""
